@@ -342,6 +342,10 @@ def search(ctx):
         ("negative layer radius", lambda: Sphere(n=[1.5, 1.4], r=[0.5, -1], center=(0, 0, 0))),
         ("centre of length 2", lambda: Sphere(n=1.5, r=0.5, center=(0, 0))),
         ("scalar centre", lambda: Sphere(n=1.5, r=0.5, center=1.0)),
+        ("layered sphere given by thicknesses: scalar centre", lambda: LayeredSphere(n=(1.5, 1.4), t=(0.3, 0.1), center=5.0)),
+        ("layered sphere given by thicknesses: centre of length 2", lambda: LayeredSphere(n=(1.5, 1.4), t=(0.3, 0.1), center=(0, 0))),
+        ("layered sphere given by thicknesses: negative first thickness (a negative radius)", lambda: LayeredSphere(n=(1.5, 1.4), t=(-0.3, 0.1), center=(0, 0, 0))),
+        ("layered sphere given by thicknesses: negative later thickness (a shell of negative width)", lambda: LayeredSphere(n=(1.5, 1.4), t=(0.3, -0.1), center=(0, 0, 0))),
         ("centre given as a 3 x 2 array", lambda: Sphere(n=1.5, r=0.5, center=np.zeros((3, 2)))),
         ("centre given as a 3 x 1 array", lambda: Sphere(n=1.5, r=0.5, center=np.zeros((3, 1)))),
         ("centre of length 4", lambda: Ellipsoid(n=1.5, r=(1, 1, 1), center=(0, 0, 0, 0))),
